@@ -19,7 +19,7 @@ def collect(tier, seed, replay, kind, nq, nt, tag):
     if replay:
         cs = read_json(os.path.join(replay, "case.json"))["case"]
         lang, swbits, sd = cs["id"].split("/")[:3]
-        jobs = [(lang, dict(zip(("disUse", "disContra", "noBounds", "noParamFn"), [b == "1" for b in swbits])), [int(sd)])]
+        jobs = [] if swbits == "mini" else [(lang, dict(zip(("disUse", "disContra", "noBounds", "noParamFn"), [b == "1" for b in swbits])), [int(sd)])]
     else:
         jobs = tc.jobs_for(tier, seed, nq, nt)
     d = subdir(tag)
@@ -27,7 +27,27 @@ def collect(tier, seed, replay, kind, nq, nt, tag):
     def ex(i):
         lang, sw, seeds = jobs[i]
         return json.loads(run_driver("mut_exec.py", [lang, json.dumps(sw), json.dumps(seeds), kind, os.path.join(d, "m%d" % i)], timeout=3400))
-    pairs = parallel(ex, range(len(jobs)))
+    # the mini-program family (HMiniProg): every member through the real mutation, the overwriting under every outcome of its choices
+    mini = []
+    if replay:
+        if "/mini/" in cs["id"]:
+            mini, jobs = [(cs["id"].split("/")[0], int(cs["id"].split("/")[2]))], []
+    else:
+        mini = [(lg, None) for lg in (("kotlin", "java") if tier == "quick" else ("kotlin", "java", "groovy", "scala"))]
+    mjobs = []
+    if mini:
+        g = tlc_must("HMiniProg", cfg(init="Init", next_="Next", constraints=["Emit"]), workers=1, name="gen_mini")
+        members = sorted({json.dumps(j, sort_keys=True) for j in g.json})
+        members = [[i, json.loads(m)] for i, m in enumerate(members)]
+        for lg, only in mini:
+            ms = [x for x in members if only is None or x[0] == only]
+            for k, part in enumerate(chunks(ms, max(1, (len(ms) + 3) // 4))):
+                mjobs.append((lg, write_json(os.path.join(d, "members_%s_%d.json" % (lg, k)), part), k))
+
+    def exm(i):
+        lg, mf, k = mjobs[i]
+        return json.loads(run_driver("mini_exec.py", [lg, mf, kind, os.path.join(d, "mini_%s_%d" % (lg, k)), 1 if tier == "quick" else 3], timeout=3400))
+    pairs = parallel(lambda t: (ex if t[0] == "p" else exm)(t[1]), [("p", i) for i in range(len(jobs))] + [("m", i) for i in range(len(mjobs))])
     cfiles, pfiles = [p[0] for p in pairs], [p[1] for p in pairs]
     fvals = parallel(frames, cfiles)
     wvals = parallel(tc.walk, pfiles)
@@ -43,6 +63,11 @@ def collect(tier, seed, replay, kind, nq, nt, tag):
             progs[p["id"]] = p
         for j in v.json:
             walks[j["prog"]] = j
+    # a member of the mini family that the reference checker does not accept as it stands is not an input of the property
+    for cid in [c for c in cases if "/mini/" in c]:
+        b = walks.get(cid + "/before")
+        if b is None or b["viol"]:
+            del cases[cid]
     return cases, verdicts, progs, walks, fvals + wvals
 
 
@@ -80,7 +105,7 @@ def run(tier, seed, selftest=False, replay=None):
     rc = verdict.finish()
     write_evidence(PID, tier, seed, "exploration", {
         "evaluations": sum(len(c["after"]["ev"]) for c in cases.values()), "distinct_nontrivial": len(cases),
-        "rule": "real TypeErasure on real programs (first and second application; 4 languages; default and sampled switches); TLC checks (a) the frame: "
+        "rule": "real TypeErasure on real programs (first and second application; 4 languages; default and sampled switches) and on every member of the mini-program family HMiniProg (TLC-enumerated well-typed programs around one generic class); TLC checks (a) the frame: "
                 "before/after walks identical except removed variable types, return types and inferable flags (HMutation.EraseFrameBad), and (b) "
                 "the erased program with HTyping in inference mode: no violation that the program did not have before. evaluations = walk events of "
                 "erased programs, distinct = mutation steps; annotation sites erased in this run: %d" % nsites,
